@@ -11,13 +11,13 @@ import (
 
 func init() {
 	register("C12", "Decides structural necessary conditions of 'a log client holding the log key never hands back unverified signed data': "+
-		"(R1) a client constructed with a public key gets the verifier built from that key or fails, and nothing else writes the Verifier field; LogClient.GetSTH returns an STH only after the fetch, ToSignedTreeHead (32-byte root, DigitallySigned without trailing bytes, fields copied from the response) and c.VerifySTHSignature on that very STH all succeeded; LogClient.VerifySTHSignature/VerifySCTSignature return nil without a verdict only when no verifier is configured, otherwise the verifier's verdict; "+
-		"(R2) addChainWithRetry returns an SCT only after the POST, the DigitallySigned decode (no trailing bytes), the extensions decode and c.VerifySCTSignature(returned SCT, the function's own entry type, the function's own chain) succeeded; the SCT is built from the response fields and not written after verification; the leaf verified is MerkleTreeLeafFromRawChain(chain, type, sct.Timestamp) with the SCT's extensions; AddChain/AddPreChain bind (X509, add-chain) / (Precert, add-pre-chain); "+
+		"(R1) a client constructed with a public key gets the verifier built from that key or fails, and nothing else writes the Verifier field; LogClient.GetSTH returns an STH only after the fetch and ToSignedTreeHead (32-byte root, DigitallySigned without trailing bytes, fields copied from the response) succeeded, and once c.VerifySTHSignature on that very STH has answered non-nil no STH-yielding return executes; an STH-yielding return that can be reached without executing the verification is accepted only as a remembered verdict: the conditions necessary for reaching it compare every input the verdict depends on (the members of the head and the client state that VerifySTHSignature and the functions it hands them to read, taken from their SSA: version, size, timestamp, root, signature algorithm pair, signature bytes by bytes.Equal, the verifier by value) with a record in the client; every store to a record member, module-wide, copies exactly that input, is dominated by the verification and does not execute once the verdict was non-nil, all members in one block; slices the verdict depends on are remembered as private copies; all record accesses hold one common mutex (remembered-verdict:key[*], fill[*], fill-complete, private[*], lock); LogClient.VerifySTHSignature/VerifySCTSignature return nil without a verdict only when no verifier is configured, otherwise the verifier's verdict; "+
+		"(R2) addChainWithRetry returns an SCT only after the POST, the DigitallySigned decode (no trailing bytes), the extensions decode and c.VerifySCTSignature(returned SCT, the function's own entry type, the function's own chain) succeeded; the SCT is built from the response fields and not written after verification; the leaf verified is MerkleTreeLeafFromRawChain(chain, type, sct.Timestamp), and the extensions inside the verified bytes are the SCT's own: every value stored into the Extensions of a ct.CertificateTimestamp marshalled on the verdict's call path is traced, parameter by parameter, to the wrapper's SCT parameter (unassigned on the way) or to the leaf, in which case the wrapper has stored sct.Extensions there before copying the leaf into the entry (signed-extensions); AddChain/AddPreChain bind (X509, add-chain) / (Precert, add-pre-chain); "+
 		"(R3) with a verifier configured, some test on the submission path looks at the response's log ID and can block the SCT; "+
 		"(R4) in GetAndParse/PostAndParse/PostAndParseWithRetry a body-read error with a response in hand, a non-200 status and a JSON error yield RspError{StatusCode, Body of that response} with nil results, and success needs status 200 (GetAndParse, PostAndParseWithRetry); every error a LogClient method produces itself after a response was received is such an RspError with a nil result, fetch errors are passed through with a nil result; "+
 		"(R5) the entry decoder touches the decoded leaf only after tls.Unmarshal succeeded without trailing bytes, decodes extra_data in the form selected by the leaf's entry type (for every type code 0..255 and the corners of the 16-bit range), rejects unknown types and trailing bytes, copies certificate and chain from the decoded parts; ToLogEntry / LogEntryFromLeaf / GetEntries return (nil, error) on fatal parse errors and never dereference a failed decode; "+
 		"(R11) over-long responses: every JSON decode in client, jsonclient and loglist3 is a parse of its whole input — json.Unmarshal, or a (*json.Decoder).Decode after which no return that can report success executes unless a later Decode/Token of the same decoder answered io.EOF (dec.More() is not that answer: it is false before a stray ']' or '}'); in GetAndParse the decode that fills rsp reads the body that is handed back and bytes behind the JSON value yield RspError{status, body} (R4 trailing-data.error-shape); white space behind the value stays acceptable. "+
-		"NOT covered: bytes through encoding/json and net/http (incl. unbounded bodies), other ways of showing a decoder's input exhausted (Buffered/InputOffset arithmetic, a bool travelling through a helper: reported as undecided), duplicate or unknown JSON members, panics inside the X.509 parser, the cryptographic check itself (C05), which fields are signed (C04), retry pacing (C13), errors of Body.Close and the redirect-converted-POST error of PostAndParse (plain errors by design, swallowed by the retry loop), that the log-ID test of R3 compares with the right hash (only its presence and blocking effect are decided).",
+		"NOT covered: a public-key object modified in place between two GetSTH calls, races between a caller that replaces c.Verifier and a running GetSTH, package-level variables the verification might read (none on this tree; the inputs of the verdict are read off parameters only), a remembered verdict whose record is kept by value with partial stores or filled by a function that is not called from GetSTH (both reported as undecided), bytes through encoding/json and net/http (incl. unbounded bodies), other ways of showing a decoder's input exhausted (Buffered/InputOffset arithmetic, a bool travelling through a helper: reported as undecided), duplicate or unknown JSON members, panics inside the X.509 parser, the cryptographic check itself (C05), which fields are signed (C04), retry pacing (C13), errors of Body.Close and the redirect-converted-POST error of PostAndParse (plain errors by design, swallowed by the retry loop), that the log-ID test of R3 compares with the right hash (only its presence and blocking effect are decided).",
 		runC12)
 }
 
@@ -123,7 +123,9 @@ func c12GetSTH(r *Run) {
 	}
 	r.Gate(fn, "GetSTH:fetch-failed", nil, nil, nilAtom(c12Get+"(*)#2"), "non", yield, []ssa.Instruction{conv, ver}, "the fetch failed")
 	r.Gate(fn, "GetSTH:malformed-sth", nil, nil, nilAtom("(*ct.GetSTHResponse).ToSignedTreeHead(*)#1"), "non", yield, []ssa.Instruction{ver}, "the response is not a well-formed STH")
-	r.Gate(fn, "GetSTH:signature-rejected", nil, nil, nilAtom("(*client.LogClient).VerifySTHSignature(*)"), "non", yield, nil, "the STH signature does not verify")
+	// once the verification said no, no STH-yielding return executes; a return that can be reached
+	// without executing the verification is a remembered verdict or a violation (rules_t8c12.go)
+	c12RememberedVerdict(r, fn, ver, conv, yield)
 	r.ExpectArg(get, "GetSTH:path", 2, `"/ct/v1/get-sth"`)
 	r.Check("GetSTH:converts-fetched-response", baseAlloc(CallArgs(get)[4]) != nil && baseAlloc(CallArgs(get)[4]) == baseAlloc(CallArgs(conv)[0]), r.Where(conv), "ToSignedTreeHead is applied to the response object GetAndParse filled")
 	r.ExpectArg(ver, "GetSTH:verify.client", 0, "p0")
@@ -303,7 +305,9 @@ func c12AddChain(r *Run) {
 			r.ExpectArg(lc, "LogClient.VerifySCTSignature:leaf.type", 1, "p2")
 			r.ExpectArg(lc, "LogClient.VerifySCTSignature:leaf.timestamp", 2, "p1.Timestamp")
 			r.FailEdge(wf, "LogClient.VerifySCTSignature", EdgeSpec{Name: "leaf-build-failed", Atom: nilAtom("ct.MerkleTreeLeafFromRawChain(*)#1"), Bad: "non", Want: wantErr(false), Unreach: asInstrs(cs)})
-			r.ExpectStores(wf, "LogClient.VerifySCTSignature:leaf.extensions", "&(ct.MerkleTreeLeafFromRawChain(p3, p2, p1.Timestamp)#0.TimestampedEntry.Extensions)", "p1.Extensions", 1)
+			// the extensions inside the verified bytes are the SCT's: taken from the SCT by the signed
+			// structure itself, or put into the leaf here (rules_t8c12.go)
+			c12SignedExtensions(r, wf, cs, lc)
 			for _, c := range cs {
 				r.ExpectFields(wf, "LogClient.VerifySCTSignature:entry", CallArgs(c)[2], map[string]string{"Leaf": "*ct.MerkleTreeLeafFromRawChain(p3, p2, p1.Timestamp)#0"})
 				// the extensions are set before the leaf is copied into the entry that is verified
